@@ -124,6 +124,15 @@ func c02Home(addr ssa.Value) ssa.Value {
 func c02Var(v ssa.Value) ssa.Value {
 	for i := 0; i < 12; i++ {
 		v = core.Strip(v)
+		if fv, isFV := v.(*ssa.FreeVar); isFV {
+			// a value bound into the closure directly (a `go m(x)` / `defer m(x)` argument, a bound
+			// receiver): the variable is whatever was bound
+			if b := c02Home(fv); b != ssa.Value(fv) {
+				v = b
+				continue
+			}
+			return v
+		}
 		u, ok := v.(*ssa.UnOp)
 		if !ok || u.Op != token.MUL {
 			return v
@@ -149,6 +158,10 @@ func c02Var(v ssa.Value) ssa.Value {
 			sv := core.Strip(st.Val)
 			if pa, ok := sv.(*ssa.Parameter); ok {
 				return pa
+			}
+			if _, ok := sv.(*ssa.FreeVar); ok {
+				v = sv // spill slot of a value bound into the enclosing closure
+				continue
 			}
 			if l, ok := sv.(*ssa.UnOp); ok && l.Op == token.MUL {
 				switch l.X.(type) {
@@ -416,6 +429,14 @@ func c02HandOver(run *core.Run, pfx, what string, r *c02Runner) {
 		}
 		if r.panicArm == nil {
 			o.Unres("%s: panic arm not found", name)
+			return
+		}
+		if mk, isMk := c02Var(r.panicArm.Chan).(*ssa.MakeChan); isMk {
+			// the channel value itself (the variable is never captured by reference)
+			o.Site(1, name)
+			if c, ok := core.ConstInt(mk.Size); !ok || c < 1 {
+				o.Fail(p.InstrPos(mk), "panic channel is unbuffered: a handler that panics after the deadline blocks its goroutine forever")
+			}
 			return
 		}
 		home, ok := c02Var(r.panicArm.Chan).(*ssa.Alloc)
